@@ -122,7 +122,7 @@ def main(argv):
             for x in f: x['desc'] = 'corpus/C16/known/%s %s' % (os.path.basename(kf), x['desc'])
             fails += f
         # (b) the mutation stream through the command line and through the library
-        budget, nexec, ninproc, ncorr = (700, 20, 2500, 60) if tier == 'quick' else (25000, 300, 150000, 1500)
+        budget, nexec, ninproc, ncorr = (700, 20, 4000, 60) if tier == 'quick' else (25000, 300, 150000, 1500)
         sc = float(os.environ.get('VERIF_BUDGET_SCALE', '1'))   # for trying out a tier quickly; 1 in normal use
         budget, nexec, ninproc, ncorr = [max(10, int(x * sc)) for x in (budget, nexec, ninproc, ncorr)]
         f, s, d, se, he, _ = parse(run(v, c16, ['fuzz', mf, budget, tier, nexec], seed, 'fuzz'))
